@@ -7,6 +7,9 @@ End to end (what a theorem cannot exhibit): generated plans x modes {SYNC, THREA
 injected failure at a step) x {run, stream_run fully drained, stream abandoned}, repeated against ONE long-lived Arrow
 Flight server; after every API call: threads started by the call have ended, no worker/manager process is left, and
 the set of datasets in the store is what it was before the call.
+Protocol level (coq/Props/Worker.v, Worker_exit_cleanup_partial over Model/Worker.v): real THREADING / MULTIPROCESSING runs on
+every exit path (normal, raised, abandoned stream, failure inside the finally block) are observed and replayed as traces; judged:
+processes / threads / Flight keys left (harness/worker_proto.py, focus C09).
 """
 from __future__ import annotations
 
@@ -25,6 +28,7 @@ from harness.universe import Universe, export_plan, kf_tfs_partial_requirement, 
 from harness.orch import GateListener, run_observed, install, flight_server, stop_flight_server, flight_keys
 from harness.c01 import gen_specs
 from harness.c06 import kf_mp_transform_non_arrow
+from harness import worker_proto
 
 LEVEL = "proof"
 logging.disable(logging.CRITICAL)
@@ -183,6 +187,10 @@ def run(rep: vlib.Reporter, tier: str, seed: int) -> None:
         "prepare_execute_step and is not modelled"]
     big = tier == "thorough"
     found = False
+    # ---- protocol level: every exit path of real THREADING / MULTIPROCESSING runs as a trace of Model/Worker.v (join / terminate
+    # order, store keys), plus the judge lines about processes / threads / keys left
+    if worker_proto.report(rep, "C09", tier, seed, n_specs=(40 if big else 5)):
+        found = True
     tc = tracker_cases(rng, 4000 if big else 500)
     bad, info1 = vlib.run_cases("C09", "tracker", REQ, "chk_tracker", [t for t, _ in tc], extra_defs=EXTRA,
                                 case_type="(list nat * bool * list (list nat)) * list (bool * nat)")
@@ -273,6 +281,8 @@ def run(rep: vlib.Reporter, tier: str, seed: int) -> None:
 def replay(path: str) -> int:
     r = json.load(open(path))["replay"]
     install()
+    if r.get("kind") == "worker_proto":
+        return worker_proto.replay_main(r, "C09")
     if r.get("kind") == "e2e":
         res = e2e(r["spec"], r["mode"], r["variant"], tuple(r["fail"]) if r.get("fail") else None)
         print(json.dumps(res, indent=1))
